@@ -33,6 +33,7 @@ type (
 
 		height     uint32
 		lastHash   crypto.Uint256
+		lastTime   uint64
 		validators []dbft.PublicKey
 	}
 )
@@ -94,6 +95,12 @@ func (n *simNode) Run(ctx context.Context) {
 			n.d.OnTimeout(n.d.Timer.Height(), n.d.Timer.View())
 		case msg := <-n.messages:
 			n.d.OnReceive(msg)
+		}
+
+		// The block of the current height was accepted, it's our duty to
+		// start consensus process for the next one.
+		if n.d.BlockIndex <= n.height {
+			n.d.Reset(n.lastTime)
 		}
 	}
 }
@@ -187,6 +194,7 @@ func (n *simNode) ProcessBlock(b dbft.Block[crypto.Uint256]) error {
 
 	n.height = b.Index()
 	n.lastHash = b.Hash()
+	n.lastTime = n.d.Timestamp
 	return nil
 }
 
